@@ -18,6 +18,9 @@ as broken):
                `.round()`, `.clip(a, b)`, `.abs()`, `.astype('int')`, `.isnull()`, `.fillna(v)`, `&`, `|`, `~`,
                loops: `loop={'first': prefix}` + `carried=[(expr, type)]` translates ONE ITERATION of a for/while loop
                as a step function of the carried variables (continue ends it, break adds a boolean result),
+               `yields=[types]` adds the list of tuples the iteration yields (in order) as one more result;
+               `logging.*(...)` statements are dropped, `assert c` is a recorded guard like `if not c: raise`,
+               `a, b = x, y` assigns simultaneously, keyword arguments to functions of the same module are placed by name,
                `np.log2` / `np.exp2` / `np.sqrt` (oracles: Section variables, in alphabetical order), NaN-propagating arithmetic on optional numbers
   parameters : (key, type[, coq name]) where key is a Python name, a dotted attribute or ANY source expression the
                function reads as an opaque input (e.g. "cnarr.chr_x_filter(diploid_parx_genome).values",
@@ -45,6 +48,10 @@ class Refuse(Exception):
 
 
 COQTY = {'Z': 'Z', 'Q': 'Q', 'B': 'bool', 'S': 'string', 'OQ': 'option Q', 'OZ': 'option Z'}
+
+
+COQ_RESERVED = {'end', 'match', 'with', 'in', 'let', 'fun', 'if', 'then', 'else', 'as', 'at', 'return', 'forall', 'exists',
+                'fix', 'cofix', 'for', 'where', 'Type', 'Prop', 'Set', 'using', 'IF', 'mod'}
 
 
 def qlit(x):
@@ -309,9 +316,33 @@ class FnTranslator:
         raise Refuse('branches of different types %s / %s' % (a[1], b[1]))
 
     def call(self, n, env):
-        if n.keywords:
-            raise Refuse('keyword arguments in a call')
         f = n.func
+        if isinstance(f, ast.Name) and f.id == 'yield_append__' and not n.keywords:
+            tys = self.yield_types
+            e = n.args[0]
+            elts = e.elts if isinstance(e, ast.Tuple) else [e]
+            if len(elts) != len(tys):
+                raise Refuse('%s: a %d-tuple is yielded where the spec declares %d components' % (self.rel, len(elts), len(tys)))
+            vals = [self.coerce(self.expr(x, env), t) for x, t in zip(elts, tys)]
+            item = '(' + ', '.join(vals) + ')' if len(vals) > 1 else vals[0]
+            return ('(%s ++ [%s])' % (env['yield__'][0], item), 'Y')
+        if n.keywords:
+            if isinstance(f, ast.Name) and f.id in self.specs and all(k.arg for k in n.keywords):
+                # keyword arguments to a function translated in the same module: placed by parameter name
+                names = [p[0] for p in self.specs[f.id]['params']]
+                pos = list(n.args)
+                kw = {k.arg: k.value for k in n.keywords}
+                if any(k not in names or names.index(k) < len(pos) for k in kw):
+                    raise Refuse('%s: keyword argument of %s that is not a (free) parameter' % (self.rel, f.id))
+                full = list(pos)
+                for nm in names[len(pos):]:
+                    if nm not in kw:
+                        break
+                    full.append(kw.pop(nm))
+                if kw:
+                    raise Refuse('%s: keyword argument after an omitted parameter in a call of %s' % (self.rel, f.id))
+                return self.call(ast.Call(func=f, args=full, keywords=[]), env)
+            raise Refuse('keyword arguments in a call')
         if isinstance(f, ast.Attribute) and f.attr == 'lower' and not n.args:
             a = self.expr(f.value, env)
             if a[1] != 'S':
@@ -506,6 +537,32 @@ class FnTranslator:
                 s = ast.If(test=s.test, body=self.desugar(s.body), orelse=self.desugar(s.orelse))
                 out.append(s)
                 continue
+            if isinstance(s, ast.Expr) and isinstance(s.value, ast.Call) and ast.unparse(s.value.func).startswith('logging.'):
+                continue                              # a log line: no effect on any value
+            if isinstance(s, ast.Assert):
+                # `assert c` -- the failing path is outside the translated function (recorded like a raise guard)
+                g = 'not (%s)' % ast.unparse(s.test)
+                if g not in self.guards:
+                    self.guards.append(g)
+                continue
+            if isinstance(s, ast.Expr) and isinstance(s.value, ast.Yield) and getattr(self, 'yield_types', None):
+                # `yield e` inside a translated loop iteration: e is appended to the list of values the iteration yields
+                if s.value.value is None:
+                    raise Refuse('%s: bare yield' % self.rel)
+                call = ast.Call(func=ast.Name(id='yield_append__', ctx=ast.Load()), args=[s.value.value], keywords=[])
+                out.append(ast.Assign(targets=[ast.Name(id='yield__', ctx=ast.Store())], value=call))
+                continue
+            if isinstance(s, ast.Assign) and len(s.targets) == 1 and isinstance(s.targets[0], ast.Tuple) \
+                    and isinstance(s.value, ast.Tuple) and len(s.value.elts) == len(s.targets[0].elts) \
+                    and all(isinstance(t, ast.Name) for t in s.targets[0].elts):
+                # a, b = x, y : the right-hand sides are all evaluated first
+                self.tuple_tmp = getattr(self, 'tuple_tmp', 0) + 1
+                tmps = ['tup%d_%d__' % (self.tuple_tmp, i) for i in range(len(s.value.elts))]
+                for tm, v in zip(tmps, s.value.elts):
+                    out.append(ast.Assign(targets=[ast.Name(id=tm, ctx=ast.Store())], value=v))
+                for t, tm in zip(s.targets[0].elts, tmps):
+                    out.append(ast.Assign(targets=[ast.Name(id=t.id, ctx=ast.Store())], value=ast.Name(id=tm, ctx=ast.Load())))
+                continue
             tgt = val = None
             if isinstance(s, ast.AugAssign):
                 tgt, val = s.target, ast.BinOp(left=self.as_load(s.target), op=s.op, right=s.value)
@@ -656,7 +713,7 @@ class FnTranslator:
             ekeys = self.assigned_keys(s.orelse, env) if s.orelse else []
             if tkeys is None or ekeys is None:
                 raise Refuse('%s: unsupported if-statement shape' % self.rel)
-            names = list(dict.fromkeys(tkeys + ekeys))
+            names = [v for v in dict.fromkeys(tkeys + ekeys) if not self.is_tuple_tmp(v)]   # temporaries of `a, b = x, y` are branch-local
             for v in names:
                 if v not in env and not (v in tkeys and v in ekeys):
                     raise Refuse('%s: %s assigned on one branch only and not defined before' % (self.rel, v))
@@ -765,7 +822,7 @@ class FnTranslator:
                 lets.append((nm, v[0]))
                 env[key] = (nm, v[1])
             elif isinstance(s, ast.If):
-                keys = self.assigned_keys([s], env)
+                keys = [k for k in self.assigned_keys([s], env) if not self.is_tuple_tmp(k)]
                 for k in keys:
                     if k not in env:
                         raise Refuse('%s: %s assigned in a nested branch only and not defined before' % (self.rel, k))
@@ -790,6 +847,10 @@ class FnTranslator:
                 for k, nm, ty in zip(keys, nms, tys):
                     env[k] = (nm, ty)
         return lets, [env[v] for v in names]
+
+    @staticmethod
+    def is_tuple_tmp(k):
+        return k.startswith('tup') and k.endswith('__')
 
     def is_raise_guard(self, s):
         return (not s.orelse) and len(s.body) == 1 and isinstance(s.body[0], ast.Raise)
@@ -873,6 +934,8 @@ class FnTranslator:
         for p in sp['params']:
             key, ty = p[0], p[1]
             coq = p[2] if len(p) > 2 else ''.join(c if (c.isalnum() or c == '_') else '_' for c in key).strip('_')
+            if coq in COQ_RESERVED:
+                coq += '_'
             plist.append((norm(key), ty, coq))
         env = {k: (c, t) for k, t, c in plist}
         self.guards = []
@@ -884,6 +947,7 @@ class FnTranslator:
                 raise Refuse('%s.%s: fragment %r .. %r not found' % (self.rel, sp['name'], frag['first'], frag['last']))
         self.loop_carried = None
         self.loop_has_break = False
+        self.yield_types = None
         loop = sp.get('loop')
         if loop:
             # ONE ITERATION of a for/while loop as a function of the loop-carried variables (declared in `carried` as
@@ -896,6 +960,12 @@ class FnTranslator:
             if node.orelse and not loop.get('ignore_else'):
                 raise Refuse('%s.%s: loop with an else clause (declare ignore_else to translate the body alone)' % (self.rel, sp['name']))
             self.loop_carried = [(norm(c), t) for c, t in sp['carried']]
+            if sp.get('yields'):
+                # the values the iteration yields, in order, are one more result: a list of tuples of the declared types
+                self.yield_types = list(sp['yields'])
+                COQTY['Y'] = 'list (%s)' % ' * '.join(COQTY[t] for t in self.yield_types)
+                env['yield__'] = ('(@nil (%s))' % ' * '.join(COQTY[t] for t in self.yield_types), 'Y')
+                self.loop_carried.append(('yield__', 'Y'))
             self.loop_has_break = any(isinstance(x, ast.Break) for x in ast.walk(ast.Module(body=node.body, type_ignores=[]))
                                       if not isinstance(x, (ast.For, ast.While)) or x is node)
             stmts = self.desugar(node.body)
